@@ -136,6 +136,9 @@ Definition q_neg (v : qval) : res qval :=
   | VQ m d => match n_neg m with Ok r => Ok (VQ r d) | Raise e => Raise e end
   end.
 
+Definition swapped (c : qcmp) : bool := match c with QGt | QGe => true | _ => false end.
+Definition flip_cmp (c : qcmp) : qcmp := match c with QGt => QLt | QGe => QLe | c => c end.
+
 Inductive qexpr :=
 | QLit (a : aexpr)
 | QTag (e : qexpr) (s : usig)          (* e U *)
@@ -155,8 +158,14 @@ Fixpoint qeval (e : qexpr) : res qval :=
       match qeval a with Raise x => Raise x | Ok va =>
       match qeval b with Raise x => Raise x | Ok vb => q_binop ndims o va vb end end
   | QCmp c a b =>
-      match qeval a with Raise x => Raise x | Ok va =>
-      match qeval b with Raise x => Raise x | Ok vb => q_cmp ndims c va vb end end
+      (* the parser rewrites  a > b  /  a >= b  into  b < a  /  b <= a  (parse.py make_comparison_node):
+         the right operand is evaluated first *)
+      if swapped c then
+        match qeval b with Raise x => Raise x | Ok vb =>
+        match qeval a with Raise x => Raise x | Ok va => q_cmp ndims (flip_cmp c) vb va end end
+      else
+        match qeval a with Raise x => Raise x | Ok va =>
+        match qeval b with Raise x => Raise x | Ok vb => q_cmp ndims c va vb end end
   | QConv e s => match qeval e with Raise x => Raise x | Ok v => convert_quantity ndims v s end
   | QNeg e => match qeval e with Raise x => Raise x | Ok v => q_neg v end
   end.
